@@ -264,11 +264,15 @@ class IoWorld(World):
             use_t = False
         elif r.random() < 0.25:
             st["wapi"] = "tocsv"
+        if "af" in tspec and st.get("wapi") != "defaults" and r.random() < 0.6:
+            st["waf"] = True            # the feature is written too (af_names): columns after the coordinates and the time
         f = self._fault(r, WRITE_FAULTS)
         if f:
             st["fault"] = f
         api = r.choice(["csv", "csv", "file", "file_tf", "shared"])
         rd = {"op": "read_csv", "path": path, "api": api, "s": s, "dt": 1}
+        if st.get("waf") and st["h"] >= 1 and r.random() < 0.5:
+            rd["read_all"] = True       # ... and read back as features (needs the header line that names them)
         f = self._fault(r, READ_FAULTS)
         if f:
             rd["fault"] = f
@@ -623,16 +627,21 @@ class IoWorld(World):
             if exc0 is not None:
                 self.fail("C13", "trackformat.raised", "TrackFormat(dict) raised %r" % (exc0,))
                 return "raised"
+            if st.get("waf"):
+                tf.af_names = [eff.get("afname", "a")]
             rv, exc, fired = self._io_call(st, TrackWriter.writeToCsv, track, st["path"], tf)
         elif st.get("wapi") == "defaults":
             self.probe("write_with_default_layout")
             rv, exc, fired = self._io_call(st, TrackWriter.writeToFile, track, st["path"])
         else:
+            extra = ([eff.get("afname", "a")],) if st.get("waf") and "af" in eff else ()
             rv, exc, fired = self._io_call(st, TrackWriter.writeToFile, track, st["path"], ids[0], ids[1],
-                                           ids[2], ids[3], st["sep"], st.get("h", 0))
+                                           ids[2], ids[3], st["sep"], st.get("h", 0), *extra)
         if self._write_outcome(st, exc, fired, [st["path"]], "csv.write.raised"):
+            if st.get("waf") and "af" in eff:
+                self.probe("csv_written_with_a_feature_column")
             self.cat[st["path"]] = {"type": "csv", "state": "acked", "track": eff, "ids": ids,
-                                    "sep": st["sep"], "h": st.get("h", 0),
+                                    "sep": st["sep"], "h": st.get("h", 0), "waf": bool(st.get("waf") and "af" in eff),
                                     "print_fmt": self.fmt_print, "owner": st.get("s", 0)}
             if st.get("h", 0):
                 self.probe("csv_header_option")
@@ -722,7 +731,11 @@ class IoWorld(World):
                 raise Skip()
             if explicit and self.fmt_read != e["print_fmt"]:
                 self.probe("explicit_time_fmt_differs_from_global")
-            tf, exc0 = self.call(TrackFormat, self._trackformat_dict(e, explicit))
+            d = self._trackformat_dict(e, explicit)
+            if st.get("read_all") and e.get("waf") and e["h"] >= 1:
+                d["read_all"] = True
+                self.probe("csv_feature_columns_read_back")
+            tf, exc0 = self.call(TrackFormat, d)
             if exc0 is not None:
                 self.fail("C13", "trackformat.raised", "TrackFormat(dict) raised %r" % (exc0,))
                 return "raised"
